@@ -23,7 +23,10 @@ type Case struct {
 	// Kind of the statement placed at (FailF, FailK): "" = the engine rejects it; "inspect_scale" /
 	// "inspect_fk" = the engine accepts it but atlas cannot inspect the result, so the replay succeeds
 	// and reading the state back fails afterwards; "open_tx" = the rejected statement follows a
-	// BEGIN TRANSACTION of the file itself.
+	// BEGIN TRANSACTION of the file itself; "chunk" = the file sets a custom delimiter (as files with
+	// trigger bodies do) and the rejected statement is the second one of a chunk sent to the engine as one
+	// call: the engine creates the chunk's table and then fails, so a failing "first statement" leaves
+	// something behind.
 	Kind string `json:"kind,omitempty"`
 }
 
@@ -36,6 +39,8 @@ func failingStmt(c Case) string {
 	case "open_tx":
 		// the file opens a transaction itself and fails inside it.
 		return "BEGIN TRANSACTION;\n" + failing
+	case "chunk":
+		return "CREATE TABLE chunk_leftover (id integer NOT NULL PRIMARY KEY);\n" + failing
 	case "inspect_fk":
 		return "CREATE TABLE selfref (id integer NOT NULL PRIMARY KEY, pid integer REFERENCES selfref (nope))"
 	}
@@ -50,6 +55,18 @@ func dirFiles(c Case) map[string]string {
 	out := map[string]string{}
 	for f, n := range c.Shape {
 		var b strings.Builder
+		if c.Kind == "chunk" && f == c.FailF {
+			b.WriteString("-- atlas:delimiter -- end\n\n")
+			for i := 0; i < n; i++ {
+				if i == c.FailK {
+					b.WriteString(failingStmt(c) + ";\n-- end\n")
+				} else {
+					b.WriteString(stmt(f, i) + ";\n-- end\n")
+				}
+			}
+			out[fmt.Sprintf("%d_f.sql", f+1)] = b.String()
+			continue
+		}
 		for i := 0; i < n; i++ {
 			if f == c.FailF && i == c.FailK {
 				b.WriteString(failingStmt(c) + ";\n")
@@ -70,6 +87,17 @@ func dirFiles(c Case) map[string]string {
 
 func sqlFile(c Case, variant int) string {
 	var b strings.Builder
+	if c.Kind == "chunk" && c.FailF == 0 {
+		b.WriteString("-- atlas:delimiter -- end\n\n")
+		for i := 0; i < c.Shape[0]; i++ {
+			if i == c.FailK {
+				b.WriteString(failingStmt(c) + ";\n-- end\n")
+			} else {
+				b.WriteString(stmt(variant, i) + ";\n-- end\n")
+			}
+		}
+		return b.String()
+	}
 	for i := 0; i < c.Shape[0]; i++ {
 		if c.FailF == 0 && i == c.FailK {
 			b.WriteString(failingStmt(c) + ";\n")
@@ -282,7 +310,7 @@ func cases(tier string) []Case {
 			for _, p := range poss {
 				kinds := []string{""}
 				if p.f >= 0 && dev == "empty" {
-					kinds = []string{"", "inspect_scale", "inspect_fk", "open_tx"}
+					kinds = []string{"", "inspect_scale", "inspect_fk", "open_tx", "chunk"}
 				}
 				for _, kind := range kinds {
 					for _, cmd := range dirCmds {
@@ -334,7 +362,7 @@ type drvReplay struct {
 
 func Run(r *report.Run) {
 	defer clih.Cleanup()
-	r.Rule = "real CLI with a SQLite file as dev database: commands {migrate diff, migrate validate, migrate lint --latest N, schema apply --to file.sql / file.hcl, schema diff file.sql file.sql, schema inspect file.sql} x dev state {empty, table with rows, view only, FTS virtual table only, R*Tree virtual table only; thorough: table+trigger} x migration directory / schema file shapes (tables, indexes, views and triggers) with, at every position (and nowhere), a statement the engine rejects or one it accepts but atlas cannot inspect (the replay succeeds, reading the state back fails); dev database and directory read before/after by our own connection / file reads; plus a driver-level slice for MySQL, PostgreSQL and CockroachDB (the PostgreSQL driver on a connection that reports a CockroachDB version; its schema public cannot be dropped): the real drivers opened on a mocked connection, their Inspector / PlanApplier replaced by an in-memory catalogue; every catalogue over two schemas (absent / empty / holding a table) x connection binding x replay effect {table in the first schema, table in the second, new schema; MySQL bound connections: the replay ends with USE <second schema>, the replay changes the collation of the bound database}: the real Snapshot must refuse whenever the connection's scope holds a table and the real restore function (real differ, real planner; the planned statements are run against the catalogue as a server would run them: foreign keys and unreported dependent objects block DROP TABLE without CASCADE) must hand the catalogue back as it was, also after a replay that created tables with cyclic foreign keys; non-trivial = every case; distinct = the case tuple"
+	r.Rule = "real CLI with a SQLite file as dev database: commands {migrate diff, migrate validate, migrate lint --latest N, schema apply --to file.sql / file.hcl, schema diff file.sql file.sql, schema inspect file.sql} x dev state {empty, table with rows, view only, FTS virtual table only, R*Tree virtual table only; thorough: table+trigger} x migration directory / schema file shapes (tables, indexes, views and triggers) with, at every position (and nowhere), a statement the engine rejects (alone, after a BEGIN of the file itself, or as the second statement of a chunk that a custom-delimiter file sends as one call, so that the failing call leaves a table behind) or one it accepts but atlas cannot inspect (the replay succeeds, reading the state back fails); dev database and directory read before/after by our own connection / file reads; plus a driver-level slice for MySQL, PostgreSQL and CockroachDB (the PostgreSQL driver on a connection that reports a CockroachDB version; its schema public cannot be dropped): the real drivers opened on a mocked connection, their Inspector / PlanApplier replaced by an in-memory catalogue; every catalogue over two schemas (absent / empty / holding a table) x connection binding x replay effect {table in the first schema, table in the second, new schema; MySQL bound connections: the replay ends with USE <second schema>, the replay changes the collation of the bound database}: the real Snapshot must refuse whenever the connection's scope holds a table and the real restore function (real differ, real planner; the planned statements are run against the catalogue as a server would run them: foreign keys and unreported dependent objects block DROP TABLE without CASCADE) must hand the catalogue back as it was, also after a replay that created tables with cyclic foreign keys; non-trivial = every case; distinct = the case tuple"
 	r.Assumptions = []string{"`migrate diff` may add one file and rewrite atlas.sum when it succeeds; nothing else may change in the directory"}
 	cs := cases(r.Tier)
 	res := make([][]string, len(cs))
